@@ -49,6 +49,27 @@ Theorem C05_ids_exhausted : forall tcp q0 s t th,
 Proof. exact add_exhausted. Qed.
 Print Assumptions C05_ids_exhausted.
 
+(* the end-of-life boundary under concurrency: once nextQid has reached 65536 it stays there under EVERY
+   continuation (any number of threads, any interleaving of Reserve / Status / addQueueC / replies / cancels /
+   closes): no further wire id is ever assigned — in particular none wraps to 0 — and Status says unavailable.
+   Whatever Reserve/Status told the callers that were handed the connection while ids were left is irrelevant. *)
+Theorem C05_exhausted_forever : forall tcp q0 s,
+  q0 <= 65536 -> reachable tcp q0 s -> pl_nextQid s = 65536 ->
+  forall ls s', pl_run ls s = Some s' ->
+    pl_nextQid s' = 65536 /\ pl_alog s' = pl_alog s /\ pl_status_available s' = false.
+Proof. exact exhausted_forever. Qed.
+Print Assumptions C05_exhausted_forever.
+
+(* ... so every later addQueueC, by any thread, fails with EoL and assigns nothing *)
+Theorem C05_add_after_exhaustion : forall tcp q0 s,
+  q0 <= 65536 -> reachable tcp q0 s -> pl_nextQid s = 65536 ->
+  forall ls s' t th, pl_run ls s = Some s' -> pl_tget s' t = Some th -> pl_tpc th = PlPStart ->
+  exists s'' th', pl_step s' (PlLAdd t) = Some s'' /\
+    pl_tget s'' t = Some th' /\ pl_tpc th' = PlPReturned PlRErrEoL /\ pl_twid th' = None /\
+    pl_nextQid s'' = 65536 /\ pl_alog s'' = pl_alog s.
+Proof. exact add_after_exhaustion. Qed.
+Print Assumptions C05_add_after_exhaustion.
+
 (* the exhausted connection is retired: when its last waiter leaves, deleteQueueC closes it *)
 Theorem C05_retired : forall s t th r w,
   pl_nextQid s = 65536 -> pl_tget s t = Some th -> pl_tpc th = PlPLeaving r -> pl_twid th = Some w ->
@@ -154,3 +175,27 @@ Example C05_example_exhaustion :
   pl_history_outcomes true 65534 [PlEvStart 1; PlEvStart 2; PlEvStart 3; PlEvReplyTo 0 5; PlEvReplyTo 1 6] =
   ([(PlOMsg 5 true, Some 65534); (PlOMsg 6 true, Some 65535); (PlOErr, None)], true).
 Proof. vm_compute. reflexivity. Qed.
+
+(* two callers racing at the boundary: one id (65535) is left; BOTH callers are handed the connection (Status
+   says available to each, Reserve does not count the last slot); the loser of the addQueueC race gets EoL and
+   no id, nothing wraps to 0, and a stale reply carrying id 0 — the answer to the connection's first, long
+   abandoned exchange — is dropped instead of satisfying anybody *)
+Definition ex_race_prefix : list pl_label :=
+  [PlLSpawn 7; PlLSpawn 8; PlLReserve; PlLReserve].
+Definition ex_race_rest : list pl_label :=
+  [PlLAdd 1; PlLAdd 0; PlLWrite 1 true; PlLRecv 0 99; PlLLookup; PlLRecv 65535 5; PlLLookup; PlLSend;
+   PlLTakeReply 1; PlLDelete 1; PlLEolClose 1].
+
+Example C05_example_boundary_race :
+  match pl_run ex_race_prefix (pl_init true 65535) with
+  | Some s1 =>
+      pl_status_available s1 = true /\
+      match pl_run ex_race_rest s1 with
+      | Some s2 => pl_outcomes s2 = [(PlOErr, None); (PlOMsg 5 true, Some 65535)] /\
+                   pl_nextQid s2 = 65536 /\ pl_closed s2 = true /\ pl_status_available s2 = false /\
+                   map snd (pl_alog s2) = [65535]
+      | None => False
+      end
+  | None => False
+  end.
+Proof. vm_compute. repeat split; reflexivity. Qed.
